@@ -51,7 +51,7 @@ impl Prop for Sem {
             },
             Which::C02 => EvidenceSpec {
                 level: "model_checking",
-                rule: "Operand sweep: every one of the 9 binary operators and negation on every ordered pair of 19 boundary integers (0, +-1, +-2, +-3, +-7, +-2^31, +-(2^63-1), +-2^63, +-2^64, +-10^30; negative operands spelled both -n and 0 - n), expected results computed by the reference (division specified by its defining identity); factorial, Fibonacci, even/odd mutual recursion, accumulator recursion, higher-order `twice`, Ackermann for small arguments, evaluation-order probes in which only the prescribed order avoids a division by zero or a loop, the repository's terminating examples; every sentence of the arithmetic / comparison sub-grammar over literals up to 9/10 tokens (all nine operators, negation, parentheses; distinct literal values by position; prescribed value = the reference interpreter on the tree grammar.y assigns, ill-typed sentences must be rejected); every type-directed program, the alias family and the type-valued groups. States = terms reached by the real `step`; in every visited state the reference interpreter started from that state must produce the same outcome as from the source program (semantic invariance), and the final value must be the prescribed one. non-trivial = programs whose ground value was compared".to_owned(),
+                rule: "Operand sweep: every one of the 9 binary operators and negation on every ordered pair of 19 boundary integers (0, +-1, +-2, +-3, +-7, +-2^31, +-(2^63-1), +-2^63, +-2^64, +-10^30; negative operands spelled both -n and 0 - n), expected results computed by the reference (division specified by its defining identity); factorial, Fibonacci, even/odd mutual recursion, accumulator recursion, higher-order `twice`, Ackermann for small arguments, evaluation-order probes in which only the prescribed order avoids a division by zero or a loop, 60 groups of four definitions with every subset of members named `_`, the repository's terminating examples; every sentence of the arithmetic / comparison sub-grammar over literals up to 9/10 tokens (all nine operators, negation, parentheses; distinct literal values by position; prescribed value = the reference interpreter on the tree grammar.y assigns, ill-typed sentences must be rejected); every type-directed program, the alias family and the type-valued groups. States = terms reached by the real `step`; in every visited state the reference interpreter started from that state must produce the same outcome as from the source program (semantic invariance), and the final value must be the prescribed one. non-trivial = programs whose ground value was compared".to_owned(),
                 assumptions: base_assumptions,
                 evaluations: "evaluations",
                 nontrivial: "nontrivial",
@@ -64,7 +64,7 @@ impl Prop for Sem {
             },
             Which::C03 => EvidenceSpec {
                 level: "exploration",
-                rule: format!("{SPACE}and every single-point perturbation of every type-directed program up to 5 nodes (quick) / of every size (thorough) (at every subterm position, annotations included, the subterm replaced by an atom of each class: 0, true, int, a function; one argument of a spine dropped), and the type-pair family (ordered pairs of the smallest generated types and of all definition groups denoting types meeting at an argument, at the branches of a conditional and at an annotated definition; the same for open types under two type parameters with a type-level function whose body is a group; pairs of terms of five kinds under an opaque type constructor): each member is well typed iff its two types / terms are convertible. For every program the real front end accepts, the elaborated term must be closed and the independent reference checker must derive for it a type convertible with the reported one. non-trivial = accepted programs confirmed by the reference"),
+                rule: format!("{SPACE}and every single-point perturbation of every type-directed program up to 5 nodes (quick) / of every size (thorough) (at every subterm position, annotations included, the subterm replaced by an atom of each class: 0, true, int, a function; one argument of a spine dropped), and the type-pair family (ordered pairs of the smallest generated types and of all definition groups denoting types meeting at an argument, at the branches of a conditional and at an annotated definition; the same for open types under two type parameters with a type-level function whose body is a group; types that are conditionals stuck on a boolean or integer parameter; pairs of terms of five kinds under an opaque type constructor with one and two indexes): each member is well typed iff its two types / terms are convertible; and the late-hole family (2580 programs in which a parameter without annotation gets its type fixed under further binders and definition groups). For every program the real front end accepts, the elaborated term must be closed and the independent reference checker must derive for it a type convertible with the reported one. non-trivial = accepted programs confirmed by the reference"),
                 assumptions: base_assumptions,
                 evaluations: "evaluations",
                 nontrivial: "nontrivial",
